@@ -121,7 +121,7 @@ func oracleC08(r *Result) {
 				fmt.Sprintf("%d successful CreateAuthRequest calls by one request", len(ps)), t.ID)
 			continue
 		}
-		if writerFaultFired(t) {
+		if writerFaultFired(t) || t.Cancelled {
 			continue // the client is gone; only the persist count is judged
 		}
 		shape := replyShape(t)
@@ -175,15 +175,29 @@ func (g G) planC08() *Plan {
 	o := &mixOpts{family: "sso-outcomes",
 		world: worldOpts{maxSPs: 3, maxUsers: 2, maxReplicas: 2, hardPct: 10, hardURLPct: 25, acsVariety: true, signReqVariety: true, parkVariety: true, noCertPct: 15, issuerVariety: true},
 		wSSO:  40, wCallback: 3, wSLO: 2, wResume: 30, wFinish: 15, wAdvance: 3, wRereg: 5, wDelSP: 1, wRestart: 1,
-		devPct: 35, tamperPct: 15, timePct: 15, faultPcts: []int{0, 0, 15, 30}, bodyFaultPct: 10, writeFaultPct: 5, rogueSPPct: 5, hostVariety: true,
+		devPct: 35, tamperPct: 15, timePct: 15, faultPcts: []int{0, 0, 15, 30}, bodyFaultPct: 10, writeFaultPct: 5, rogueSPPct: 5, hostVariety: true, wCancel: 3, deadlinePct: 8,
 		minSteps: 3, maxSteps: 30, maxPre: 1, autoFinishPct: 35}
 	p := g.planMix("C08", o)
-	// duplicate submission: the same request twice (two tasks, two outcomes)
-	if g.chance("dup", 30) {
+	// duplicate submission: the same request twice (two tasks, two outcomes) — at the end of the run, right after the original,
+	// or while the original is inside its persist call (a browser double-submit)
+	if g.chance("dup", 40) {
+		how := g.intn("dup.how", 3)
 		for i := range p.Steps {
 			if p.Steps[i].K == "send" && p.Steps[i].Msg != nil && p.Steps[i].Msg.Kind == "sso" {
 				cp := *p.Steps[i].Msg
-				p.Steps = append(p.Steps, Step{K: "send", Msg: &cp})
+				dup := Step{K: "send", Msg: &cp}
+				switch how {
+				case 0:
+					p.Steps = append(p.Steps, dup)
+				case 1:
+					rest := append([]Step{dup}, p.Steps[i+1:]...)
+					p.Steps = append(p.Steps[:i+1:i+1], rest...)
+				default:
+					// original up to (not into) CreateAuthRequest, then the duplicate runs as far as it gets, then both finish
+					mid := []Step{{K: "until", Pick: -1, Op: "CreateAuthRequest"}, dup, {K: "finish", Pick: 99}, {K: "drain"}}
+					rest := append(mid, p.Steps[i+1:]...)
+					p.Steps = append(p.Steps[:i+1:i+1], rest...)
+				}
 				break
 			}
 		}
